@@ -118,18 +118,30 @@ FnDegree(c1, c2) ==
   LET p == Deg(c1.U) q == Deg(c2.U) IN
   IF c1.W = <<>> /\ c2.W = <<>> THEN (IF p > q THEN p ELSE q) ELSE p + q
 
-SameFunction(c1, c2) ==
-  /\ Limits(c1.U) = Limits(c2.U)
-  /\ LET ks == CommonBreaks(c1.U, c2.U)
-         S  == SamplePts(ks, FnDegree(c1, c2))
-     IN /\ \A u \in S : Eval(c1, u) = Eval(c2, u)
-        /\ \A i \in 2..Len(ks) : LeftLimit(c1, ks[i]) = LeftLimit(c2, ks[i])
+(* three-valued: "yes" / "no" / "unknown".  A value that left TLC's 32 bits is NaR (module Rat); a pair   *)
+(* of representable, different values decides "no"; otherwise any NaR makes the answer "unknown".          *)
+Cmp3(pairs) ==                      \* pairs: set of <<x, y>>
+  IF \E p \in pairs : ~IsNaR(p[1]) /\ ~IsNaR(p[2]) /\ p[1] # p[2] THEN "no"
+  ELSE IF \E p \in pairs : IsNaR(p[1]) \/ IsNaR(p[2]) THEN "unknown"
+  ELSE "yes"
+
+SameFunction3(c1, c2) ==
+  IF Limits(c1.U) # Limits(c2.U) THEN "no"
+  ELSE LET ks == CommonBreaks(c1.U, c2.U)
+           S  == SamplePts(ks, FnDegree(c1, c2))
+       IN Cmp3({<<Eval(c1, u), Eval(c2, u)>> : u \in S}
+               \cup {<<LeftLimit(c1, ks[i]), LeftLimit(c2, ks[i])>> : i \in 2..Len(ks)})
+
+SameFunctionStrict(c1, c2) == SameFunction3(c1, c2) = "yes"
+(* used by the specification's own sanity properties: tolerant of arithmetic that left the range *)
+SameFunction(c1, c2) == SameFunction3(c1, c2) # "no"
 
 (* c2 (on a sub-interval) equals c1 restricted to c2's interval             *)
-RestrictsTo(c1, c2) ==
-  /\ Valid(c1.U, Umin(c2.U)) /\ Valid(c1.U, Umax(c2.U))
-  /\ LET ks == SeqOfSet({x \in KnotSet(c1.U) \cup KnotSet(c2.U) : Valid(c2.U, x)})
-         S  == SamplePts(ks, FnDegree(c1, c2))
-     IN /\ \A u \in S \ {Umax(c2.U)} : Eval(c2, u) = Eval(c1, u)
-        /\ \A i \in 2..Len(ks) : LeftLimit(c2, ks[i]) = LeftLimit(c1, ks[i])
+RestrictsTo3(c1, c2) ==
+  IF ~(Valid(c1.U, Umin(c2.U)) /\ Valid(c1.U, Umax(c2.U))) THEN "no"
+  ELSE LET ks == SeqOfSet({x \in KnotSet(c1.U) \cup KnotSet(c2.U) : Valid(c2.U, x)})
+           S  == SamplePts(ks, FnDegree(c1, c2))
+       IN Cmp3({<<Eval(c2, u), Eval(c1, u)>> : u \in S \ {Umax(c2.U)}}
+               \cup {<<LeftLimit(c2, ks[i]), LeftLimit(c1, ks[i])>> : i \in 2..Len(ks)})
+RestrictsTo(c1, c2) == RestrictsTo3(c1, c2) # "no"
 =============================================================================
